@@ -247,9 +247,9 @@ pub(super) fn derive_schema(input: TokenStream) -> syn::Result<TokenStream> {
                 Ok(schema)
             }
 
-            Fields::Unnamed(FieldsUnnamed { paren_token:_, unnamed }) if unnamed.len() == 0 => {/* empty */
+            Fields::Unnamed(FieldsUnnamed { paren_token:_, unnamed }) if unnamed.len() == 0 => {/* empty; serde writes `struct S();` (or a variant `V()`) as `[]` */
                 Ok(quote! {
-                    ::ohkami::openapi::object()
+                    ::ohkami::openapi::array(::ohkami::openapi::object()).maxItems(0)
                 })
             }
             Fields::Unit => {/* empty; serde writes a unit struct (or an untagged unit variant) as `null` */
